@@ -206,6 +206,9 @@ def _cols_to_consts(node, mapping):
     return node
 
 
+_FIRST_RESULT = {}
+
+
 def history_layer(ctx, nhist, maxlen):
     rng = ctx.rng
     texts = [
@@ -216,6 +219,10 @@ def history_layer(ctx, nhist, maxlen):
         ('SELECT %(a)s, %(a)s + i FROM #t', lambda r: {'a': r.range(0, 3)}),
         ('SELECT s, count(i) FROM #t GROUP BY s ORDER BY 2 DESC, 1', lambda r: None),
         ('SELECT DISTINCT b, c FROM #t', lambda r: None),
+        ('SELECT * FROM (SELECT i AS a, s AS b FROM #t)', lambda r: None),
+        ('SELECT * FROM (SELECT j AS c FROM #t WHERE j > %s)', lambda r: (r.range(0, 3),)),
+        ('SELECT a FROM (SELECT s AS a, i AS b FROM #t WHERE i < %s)', lambda r: (r.range(2, 9),)),
+        ('SELECT a FROM (SELECT dt AS a FROM #t)', lambda r: None),
         ('SELECT %s, %s, %s FROM #t LIMIT 2', lambda r: (r.choice([True, None]), datetime.date(2020, 1, r.range(1, 9)), 'x')),
         # values that compare equal in Python but are different literals
         ('SELECT str(%s) AS v, %s AS w FROM #t LIMIT 1', lambda r: (r.choice([1, True, Decimal('1'), Decimal('1.0'), Decimal('1.00'), 0, False]),
@@ -258,6 +265,14 @@ def history_layer(ctx, nhist, maxlen):
             except Exception as exc:  # noqa: BLE001
                 got = impl.classify_exc(exc)
             fresh = impl.run_select(impl.connection([impl.HTable('t', table.coldefs, snapshot)]), text, params)
+            # ... and what this very statement gave the first time it was run in this process on these rows (state kept at
+            # module or class level would spoil the fresh connection as well)
+            mkey = (text, repr(params), repr(snapshot))
+            first = _FIRST_RESULT.setdefault(mkey, fresh)
+            if fresh != first:
+                ctx.record_violation('history-dependent-result', 'a fresh connection now gives %s for %s %r, it gave %s before other statements ran'
+                                     % (fresh[:200], text, params, first[:200]), payload={'steps': steps, 'rows': snapshot})
+                break
             steps.append((mode, text, params))
             ctx.evaluations += 1
             ctx.nontrivial_hashes.add(hash((h, step, text, repr(params), mode)))
@@ -410,6 +425,13 @@ def ledger_history_layer(ctx, nledgers):
                 raise RuntimeError('ledger history statement is not accepted: %s (%r)' % (q, exc))
         order = rng.shuffle(list(LEDGER_QUERIES) * 2)
         for q in order:
+            if rng.chance(1, 3):
+                # a PRINT statement compiled in between (a cursor cannot execute it, but the connection compiles it)
+                for ptext in ('PRINT', 'PRINT FROM year >= 2020 CLOSE ON 2020-06-01'):
+                    try:
+                        conn.compile(conn.parse(ptext))
+                    except Exception:  # noqa: BLE001
+                        pass
             try:
                 cur = conn.execute(q)
                 got = proto.show_result(cur.description, cur.fetchall(), proto.Content())
